@@ -155,6 +155,28 @@ func (e *Exec) evalSelector(st *State, n *ast.SelectorExpr) Value {
 	if sel := info.Selections[n]; sel != nil {
 		switch sel.Kind() {
 		case types.FieldVal:
+			// exported field of a library struct (e.g. (*net.TCPAddr).IP): an uninterpreted function
+			// of the object's identity (library objects are treated as immutable values)
+			if rt := sel.Recv(); len(sel.Index()) == 1 {
+				bt := rt
+				if pt, ok := rt.Underlying().(*types.Pointer); ok {
+					bt = pt.Elem()
+				}
+				if reprOf(bt) == rOpaque {
+					ref := asTerm(e.eval(st, n.X))
+					if isPointerType(rt) {
+						e.safety(st, "nil", mkNe(ref, tZero), n)
+					}
+					f := bt.Underlying().(*types.Struct).Field(sel.Index()[0])
+					key := "ofield!" + typeKey(bt) + "." + f.Name()
+					v := buildValue(f.Type(), "", func(path string, srt *Sort, typ types.Type) *Term {
+						return mkApp(key+path, srt, ref)
+					})
+					e.assumeWellTypedOpaque(st, v)
+					e.assumptions["exported fields of library structs ("+typeKey(bt)+"."+f.Name()+") are functions of the object's identity (not mutated while in use)"] = true
+					return v
+				}
+			}
 			// by-value struct not addressable (e.g. call result)? try location first
 			if e.addressable(n.X) || isPointerType(info.TypeOf(n.X)) {
 				return e.loadLoc(st, e.lvalue(st, n))
@@ -1245,4 +1267,24 @@ func popcount(v *big.Int) int {
 		}
 	}
 	return n
+}
+
+// assumeWellTypedOpaque: representation invariants of a value read out of a library struct.
+func (e *Exec) assumeWellTypedOpaque(st *State, v Value) {
+	switch x := v.(type) {
+	case Scalar:
+		switch reprOf(x.Typ) {
+		case rInt:
+			st.assume(inRangeTerm(x.T, x.Typ))
+		case rRef, rOpaque:
+			st.assume(mkGe(x.T, tZero))
+		}
+	case SliceVal:
+		st.assume(mkGe(x.Arr, tZero))
+		st.assume(mkGe(x.Off, tZero))
+		st.assume(mkGe(x.Len, tZero))
+		st.assume(mkLe(x.Len, x.Cap))
+		st.assume(mkImplies(mkEq(x.Arr, tZero), mkEq(x.Cap, tZero)))
+		st.assume(mkLe(mkAdd(x.Off, x.Cap), mkInt64(1<<50)))
+	}
 }
